@@ -252,13 +252,14 @@ type recRW struct {
 	tempKinds bool
 	attempts  map[uint32]int
 	attErrs   map[error]uint32
+	bareIDs   map[uint32]bool // frames whose writes fail with the bare (comparable) errno
 	nwrites  int32
 	reads    int32
 }
 
 func newRecRW(link oracle.Link, seed uint64, failPermille, delayMode int, clock *rigClock) *recRW {
 	return &recRW{link: link, seed: seed, failPermille: failPermille, delayMode: delayMode, clock: clock,
-		werrs: map[uint32]error{}, attempts: map[uint32]int{}, attErrs: map[error]uint32{}, readCh: make(chan struct{})}
+		werrs: map[uint32]error{}, attempts: map[uint32]int{}, attErrs: map[error]uint32{}, bareIDs: map[uint32]bool{}, readCh: make(chan struct{})}
 }
 
 // frameID extracts the request id (destination address) from a probe frame.
@@ -302,8 +303,13 @@ func (w *recRW) WritePacketData(pkt []byte) error {
 			att := w.attempts[id]
 			w.mu.Unlock()
 			h6 := rigHash(w.seed, id, 6)
-			if kind := h6 % 4; kind != 0 {
-				if att > 1+int(h6/4%5) {
+			if kind := h6 % 5; kind != 0 {
+				if kind == 4 {
+					w.mu.Lock()
+					w.bareIDs[id] = true
+					w.mu.Unlock()
+				}
+				if att > 1+int(h6/5%5) {
 					ev.err = nil
 				} else {
 					switch kind {
@@ -313,6 +319,9 @@ func (w *recRW) WritePacketData(pkt []byte) error {
 						ev.err = &rigTimeoutErr{id}
 					case 3:
 						ev.err = &os.SyscallError{Syscall: "sendto", Err: syscall.ENOBUFS}
+					case 4:
+						// the bare errno, as a raw sendto returns it: the same value for every frame that fails this way
+						ev.err = syscall.ENOBUFS
 					}
 				}
 			}
@@ -333,7 +342,9 @@ func (w *recRW) WritePacketData(pkt []byte) error {
 	w.mu.Lock()
 	if ev.err != nil {
 		w.werrs[id] = ev.err
-		w.attErrs[ev.err] = id
+		if ev.err != error(syscall.ENOBUFS) {
+			w.attErrs[ev.err] = id
+		}
 	}
 	ev.seqRet = w.clock.tick()
 	w.events = append(w.events, ev)
